@@ -230,8 +230,9 @@ func (g *Gen) genC14(n int) error {
 		cfg := g.vecCfg()
 		if g.tier == "thorough" && i%100 == 99 || g.tier == "quick" && i%40 == 39 {
 			// clustered index class: at least 1000 vectors
-			cfg.minDocs, cfg.maxDocs = 400, 500
+			cfg.minDocs, cfg.maxDocs = 520, 600
 			cfg.maxFields = 1
+			cfg.vecOne, cfg.vecAll = true, true
 			g.st("vec.clustered")
 		}
 		b := g.randBatch(g.fresh("b"), cfg)
@@ -273,6 +274,7 @@ func (g *Gen) genC14(n int) error {
 					for _, d := range []int{nd - 1, nd - 2, cut, cut + 1, cut / 2, 0} {
 						if v := vecOfDoc(b, d, fn); v != nil {
 							g.emit("vsearch %s q=%s k=%d elig=%s", h, intList(v), 1+g.r.Intn(3), intList(pre))
+							g.emit("vsearch %s q=%s k=%d elig=%s", h, intList(v), 30+g.r.Intn(30), intList(pre))
 							g.emit("vsearch %s q=%s k=1", h, intList(v))
 						}
 					}
@@ -299,7 +301,7 @@ func (g *Gen) bigVecMerge() {
 	cfg := g.vecCfg()
 	cfg.minDocs, cfg.maxDocs = 520, 600
 	cfg.maxFields = 0
-	cfg.vecOne = true
+	cfg.vecOne, cfg.vecAll = true, true
 	b := g.randBatch(g.fresh("b"), cfg)
 	g.emitBatch(b)
 	s := g.fresh("s")
